@@ -96,7 +96,14 @@ func castSnippets34() []snippet {
 						if t.Res {
 							name += ":" + v
 						}
-						out = append(out, snippet{Name: name, Feat: "castgrid", Code: code})
+						// signature construct: value kind, source form, optional-ness of the target, observation
+						// variant - the operator and the exact target are cases of it (one finding per feature)
+						tclass := "nonoptional-target"
+						if tg.depth > 0 {
+							tclass = "optional-target"
+						}
+						out = append(out, snippet{Name: name, Feat: "castgrid", Code: code,
+							Sig: fmt.Sprintf("castgrid:%s:%s:%s:%s", t.Name, src.Name, tclass, v)})
 					}
 				}
 			}
